@@ -36,7 +36,9 @@ def base_file(rng, D, C):
             k = rng.pick(["k", "key", "list", "x"])
             t = rng.random()
             if t < 0.2:
-                out.append("[%s]" % rng.pick(["A", "B", "A"]))
+                if rng.chance(0.3):
+                    out.append("# about the section")          # a comment block in front of a header ...
+                out.append("[%s]%s" % (rng.pick(["A", "B", "A"]), rng.pick(["", "", " # header note"])))      # ... that carries a trailing comment
             elif t < 0.4:
                 out.append("%s%s" % (k, d))
             elif t < 0.6:
@@ -211,6 +213,17 @@ def build_plans(world):
     ops.append({"op": "write", "k": 60, "dir": "$ROOT/out", "name": "t.conf", "need": ["k"], "tag": "write"})
     ops.append({"op": "free", "k": 60})
     ops.append({"op": "readDirsHistory", "o": 0, "usr": "$ROOT/d", "etc": "$ROOT/e", "name": "app", "suffix": "conf", "delim": D, "comment": C, "tag": "hist"})
+    # members of a history are objects like any other: merged with each other in both roles and used again afterwards
+    ops.append({"op": "historyMember", "h": 0, "i": 0, "o": 70})
+    ops.append({"op": "historyMember", "h": 0, "i": 1, "o": 71})
+    for a, b, o_ in ((70, 71, 72), (71, 70, 73)):
+        ops.append({"op": "merge", "o": o_, "usr": a, "etc": b, "need": ["usr", "etc"], "tag": "merge"})
+        ops.append({"op": "exercise", "k": b, "need": ["k"], "tag": "ex"})
+        ops.append({"op": "exercise", "k": a, "need": ["k"], "tag": "ex"})
+        ops.append({"op": "exercise", "k": o_, "need": ["k"], "tag": "ex"})
+        ops.append({"op": "free", "k": o_})
+    ops.append({"op": "historyMember", "h": 0, "release": 70})
+    ops.append({"op": "historyMember", "h": 0, "release": 71})
     ops.append({"op": "freeHistory", "h": 0})
     for k in range(n):
         ops.append({"op": "free", "k": k})
